@@ -109,8 +109,21 @@ class Feed(object):
     next = __next__
 
 
-def observe(el, items, flags, names, root):
-    """Run el.run over the items; returns (events, error).  "out" events carry the yielded object under "obj"."""
+class _InputRaised(Exception):
+    """raised by the input of a run (scenario kind "abort")"""
+
+
+class _RaisingFeed(Feed):
+    def __next__(self):
+        if self.k >= len(self.items):
+            raise _InputRaised()
+        return Feed.__next__(self)
+    next = __next__
+
+
+def observe(el, items, flags, names, root, cut=0, kind="end"):
+    """Run el.run over the items (in two runs of the same element if cut > 0: the first over items[:cut], ended
+    normally or by an exception of the input); returns (events, error).  "out" events carry the yielded object."""
     events = []
     REC.install()
     REC.events, REC.root = events, root
@@ -119,17 +132,44 @@ def observe(el, items, flags, names, root):
     sys.stdout = open(os.devnull, "w")
     REC.active = True
     try:
-        try:
-            for o in el.run(Feed(items, flags, names, events)):
-                events.append({"ev": "out", "obj": o})
-        except Exception as exc:   # noqa
-            err = exc
+        segs = [(0, len(items), False)] if not cut else [(0, cut, kind == "abort"), (cut, len(items), False)]
+        for lo, hi, raising in segs:
+            feed = (_RaisingFeed if raising else Feed)(items[lo:hi], flags[lo:hi], names[lo:hi], events)
+            try:
+                for o in el.run(feed):
+                    events.append({"ev": "out", "obj": o})
+            except _InputRaised:
+                pass
+            except Exception as exc:   # noqa
+                err = exc
+                break
+            if hi != len(items) or (cut and hi == cut):
+                if lo == 0 and cut:
+                    events.append({"ev": "rerun", "kind": kind})
     finally:
         REC.active = False
         sys.stdout.close()
         sys.stdout = so
     events.append({"ev": "end"})
     return events, err
+
+
+def observe_empty_first(el, avals, names, root, kind):
+    """reference for a scenario whose first run contains no selected value: an empty first run, then all of A"""
+    REC.install()
+    so = sys.stdout
+    sys.stdout = open(os.devnull, "w")
+    try:
+        try:
+            list(el.run((_RaisingFeed if kind == "abort" else Feed)([], [], [], [])))
+        except _InputRaised:
+            pass
+        except Exception as exc:   # noqa
+            return [{"ev": "end"}], exc
+    finally:
+        sys.stdout.close()
+        sys.stdout = so
+    return observe(el, avals, [True] * len(avals), names, root)
 
 
 # --------------------------------------------------------------------------- canonical forms, snapshots
@@ -257,10 +297,51 @@ COMMON_B = [
     ("pair_ordereddict", lambda d: (2.5, collections.OrderedDict(a=1))),     # context of a dict subclass
     ("bytes", lambda d: b"raw bytes"),
 ]
+# values that look like "nothing" (falsy data, empty containers, empty context)
+NOTHING_B = [
+    ("zero", lambda d: 0),
+    ("empty_str", lambda d: ""),
+    ("empty_dict", lambda d: {}),
+    ("empty_list", lambda d: []),
+    ("false", lambda d: False),
+    ("empty_tuple", lambda d: ()),
+    ("pair_zero_empty", lambda d: (0, {})),
+    ("pair_none_empty", lambda d: (None, {})),
+    ("pair_emptystr_ctx", lambda d: ("", {"a": 0})),
+    ("pair_emptylist_ctx", lambda d: ([], {"output": {}})),
+]
+# per element (name prefix): nothing-like values that the element SELECTS and that therefore are not added
+NOTHING_SELECTED = {"Write": ("empty_str", "pair_emptystr_ctx"), "RunIf": ("zero", "false", "pair_zero_empty")}
+
+
+class _RowsAttr(object):
+    """has a data attribute called `rows` (not a method): not convertible by ToCSV"""
+    rows = 5
+
+    def __repr__(self):
+        return "_RowsAttr()"
+
+
+class _RowsRaises(object):
+    """its rows() raises AttributeError: ToCSV treats it as having no rows"""
+
+    def rows(self):
+        raise AttributeError("no rows today")
+
+    def __repr__(self):
+        return "_RowsRaises()"
+
+
 STR_B = [
     ("str", lambda d: "text"),
     ("pair_str", lambda d: ("text", {"output": {"filetype": "txt"}})),
 ]
+
+
+# configurations added by the clause-coverage audit: the quick tier runs a representative slice of their scenarios
+AUDIT_CONFIGS = ("Write_existing_unchanged", "LaTeXToPDF_fail", "LaTeXToPDF_mtime", "RenderLaTeX_callables",
+                 "RenderLaTeX_from_data", "MapBins_two_results", "IterateBins_int_bins", "MapGroup_no_results",
+                 "MapGroup_two_results", "RunIf_objects")
 
 
 class ElementSpec(object):
@@ -289,6 +370,22 @@ class _Drop(object):
         for v in flow:
             if lena.flow.get_data(v) > 5:
                 yield ("kept", v)
+
+
+class _Twice(object):
+    """Run element: every value twice (second one marked)"""
+
+    def run(self, flow):
+        for v in flow:
+            yield v
+            yield (v, {"second": True})
+
+
+class _DropAll(object):
+    def run(self, flow):
+        for v in flow:
+            if False:
+                yield v
 
 
 def _write_file(path, text):
@@ -320,6 +417,23 @@ def _stub_command(texfile_name, outfilename, output_directory, context):
     return ["/bin/cp", texfile_name, outfilename]
 
 
+def _stub_command_fail(texfile_name, outfilename, output_directory, context):
+    """the converter fails for a2.tex (its result is dropped by LaTeXToPDF)"""
+    if os.path.basename(texfile_name).startswith("a2"):
+        return ["/bin/false"]
+    return ["/bin/cp", texfile_name, outfilename]
+
+
+def _prep_tex_mtime(d):
+    _prep_tex(d)
+    for n, pdf_newer in (("a4", True), ("a5", False)):
+        tex, pdf = os.path.join(d, "tex", n + ".tex"), os.path.join(d, "tex", n + ".pdf")
+        _write_file(tex, "tex " + n)
+        _write_file(pdf, "old pdf " + n)
+        os.utime(tex, (1000000000, 1000000000 + (0 if pdf_newer else 500)))
+        os.utime(pdf, (1000000000, 1000000000 + (500 if pdf_newer else 0)))
+
+
 def _owner_by_basename(result, avalues):
     """k (1-based) of the selected value a converter result stems from: same file name without extension."""
     import lena.flow
@@ -341,6 +455,7 @@ def make_fake_pdftoppm(bindir):
 
 
 def element_specs():
+    import lena.core
     import lena.flow
     import lena.output
     import lena.structures
@@ -358,6 +473,8 @@ def element_specs():
                               ("csv_path", lambda d: (os.path.join(d, "out", "new", "t.csv"),
                                                       {"output": {"filetype": "csv", "filepath": "out/new/t.csv"}})),
                               ("hist_to_csv_zero", lambda d: (_H1(), {"output": {"to_csv": 0, "dirname": "new/h"}})),
+                              ("obj_rows_raises_attributeerror", lambda d: (_RowsRaises(), {"r": 1})),
+                              ("obj_rows_not_callable", lambda d: (_RowsAttr(), {"r": 2})),
                               # option keys ToCSV reads for the values it converts, carried by values it does not convert
                               ("int_duplicate_last_bin_false", lambda d: (3, {"output": {"duplicate_last_bin": False}})),
                               ("int_duplicate_last_bin_true", lambda d: (3, {"output": {"duplicate_last_bin": True}})),
@@ -527,6 +644,74 @@ def element_specs():
     variant("LaTeXToPDF", "LaTeXToPDF_overwrite",
             lambda d: lena.output.LaTeXToPDF(verbose=0, overwrite=True, create_command=_stub_command),
             "LaTeXToPDF(overwrite=True): every tex value is handed to a process")
+    # ---- configurations added by the clause-coverage audit (options and branches no other configuration reaches)
+    variant("Write", "Write_existing_unchanged",
+            lambda d: lena.output.Write(os.path.join(d, "out"), verbose=False, existing_unchanged=True),
+            "Write(existing_unchanged=True) with existing files", prepare=_prep_write)
+    variant("LaTeXToPDF", "LaTeXToPDF_fail",
+            lambda d: lena.output.LaTeXToPDF(verbose=0, create_command=_stub_command_fail),
+            "LaTeXToPDF whose converter fails for one file: that result is dropped (fan-out 0)")
+    b = by["LaTeXToPDF"]
+    out.append(ElementSpec(
+        "LaTeXToPDF_mtime", lambda d: lena.output.LaTeXToPDF(verbose=0, create_command=_stub_command),
+        prepare=_prep_tex_mtime, is_async=True, owner=_owner_by_basename,
+        A=[("tex_pdf_newer", lambda d: (os.path.join(d, "tex", "a4.tex"), {"output": {"filetype": "tex"}})),
+           ("tex_newer_than_pdf", lambda d: (os.path.join(d, "tex", "a5.tex"), {"output": {"filetype": "tex"}, "k": 2})),
+           ("tex_changed", lambda d: (os.path.join(d, "tex", "a1.tex"), {"output": {"filetype": "tex", "changed": True}}))],
+        B=b.B, doc="output.changed missing: modification times of tex and pdf decide (pdf newer: no process)"))
+    b = by["RenderLaTeX"]
+    out.append(ElementSpec(
+        "RenderLaTeX_callables",
+        lambda d: lena.output.RenderLaTeX(select_template=lambda v: "t2.tex", template_dir=os.path.join(d, "templates"),
+                                          select_data=lambda v: lena.flow.get_context(v).get("render") is True),
+        prepare=_prep_render,
+        A=[("render_true", lambda d: (1, {"render": True, "v": 1})),
+           ("render_true_txt", lambda d: ("x", {"render": True, "v": 2, "output": {"filetype": "txt"}}))],
+        B=b.B + [("csv_without_render_key", lambda d: ("f.csv", {"output": {"filetype": "csv"}, "v": 3})),
+                 ("render_false", lambda d: (1, {"render": False, "v": 4})),
+                 ("render_truthy_not_true", lambda d: (1, {"render": 1, "v": 5}))],
+        doc="RenderLaTeX with callable select_template and select_data"))
+    out.append(ElementSpec(
+        "RenderLaTeX_from_data",
+        lambda d: lena.output.RenderLaTeX("t2.tex", template_dir=os.path.join(d, "templates"), from_data=True),
+        prepare=_prep_render,
+        A=[("dict_data_csv", lambda d: ({"v": 5}, {"output": {"filetype": "csv"}})),
+           ("dict_data_csv2", lambda d: ({"v": 6, "w": 1}, {"output": {"filetype": "csv", "fileext": "csv"}, "v": 0}))],
+        B=b.B, doc="RenderLaTeX(from_data=True): the data part is rendered"))
+    b = by["MapBins"]
+    out.append(ElementSpec(
+        "MapBins_two_results", lambda d: lena.structures.MapBins(_Twice(), select_bins=int, drop_bins_context=True),
+        A=b.A, B=b.B, doc="MapBins whose sequence yields two values per bin: two histograms per selected value"))
+    b = by["IterateBins"]
+    out.append(ElementSpec(
+        "IterateBins_int_bins", lambda d: lena.structures.IterateBins(select_bins=int),
+        A=[("hist_int_bins", lambda d: _H1()), ("hist_int_bins_var", lambda d: (_H1(), {"variable": {"name": "x"}}))],
+        B=[x for x in b.B if not x[0].startswith("hist_numbers")] + [("hist_of_hists", lambda d: _HH()),
+                                                                      ("hist_of_hists_pair", lambda d: (_HH(), {"a": 1}))],
+        doc="IterateBins(select_bins=int): histograms with integer bins are iterated, histograms of histograms pass"))
+    b = by["MapGroup"]
+    out.append(ElementSpec(
+        "MapGroup_no_results", lambda d: lena.flow.MapGroup(_DropAll(), map_scalars=False),
+        A=b.A, B=b.B, doc="MapGroup whose sequence yields nothing: a warning and no result (fan-out 0)"))
+    out.append(ElementSpec(
+        "MapGroup_two_results", lambda d: lena.flow.MapGroup(_Twice(), map_scalars=False),
+        A=b.A, B=b.B, doc="MapGroup whose sequence yields two values per item: two groups per selected value"))
+    b = by["RunIf"]
+    out.append(ElementSpec(
+        "RunIf_objects", lambda d: lena.flow.RunIf(lena.flow.Selector(int), lena.core.Sequence(_Tag())),
+        A=b.A, B=b.B, doc="RunIf given a Selector and a Sequence object"))
+    # ---- values that look like nothing, for every configuration (except where the element selects them)
+    done = set()
+    for e in out:
+        if id(e.B) in done:
+            continue
+        done.add(id(e.B))
+        skip = ()
+        for prefix, names in NOTHING_SELECTED.items():
+            if e.name.startswith(prefix):
+                skip = names
+        have = set(n for n, _ in e.B)
+        e.B.extend(x for x in NOTHING_B if x[0] not in skip and x[0] not in have)
     return out
 
 
@@ -534,9 +719,11 @@ def element_specs():
 class Scenario(object):
     """Reference run on A alone, then the run on the interleaving; produces the tagged event log."""
 
-    def __init__(self, spec, pattern, anames, bnames, root):
+    def __init__(self, spec, pattern, anames, bnames, root, bobj=None, cut=0, kind="end"):
         self.spec, self.pattern, self.root = spec, list(pattern), root
         self.anames, self.bnames = anames, bnames
+        self.bobj = list(bobj) if bobj else list(range(1, len(bnames) + 1))
+        self.cut, self.kind = cut, kind
         self.problems = []      # harness-level problems (element raised, ...)
 
     def fresh_dir(self):
@@ -551,7 +738,13 @@ class Scenario(object):
         # reference: the selected values alone
         self.fresh_dir()
         avals = [amap[n](root) for n in self.anames]
-        ev, err = observe(spec.make(root), avals, [True] * len(avals), self.anames, root)
+        cut_a = sum(1 for x in self.pattern[:self.cut] if x) if self.cut else 0
+        if self.cut and cut_a == 0 and self.kind == "end":
+            # the first run of the reference has no values at all: it is still a run
+            pass
+        ev, err = observe(spec.make(root), avals, [True] * len(avals), self.anames, root,
+                          cut=cut_a if self.cut else 0, kind=self.kind) if not (self.cut and cut_a == 0) else \
+            observe_empty_first(spec.make(root), avals, self.anames, root, self.kind)
         if err is not None:
             self.problems.append(("reference-raised", "A", repr(err)))
             return None
@@ -573,6 +766,9 @@ class Scenario(object):
         self.fresh_dir()
         avals = [amap[n](root) for n in self.anames]
         bvals = [bmap[n](root) for n in self.bnames]
+        for k, first in enumerate(self.bobj):
+            if first != k + 1:
+                bvals[k] = bvals[first - 1]          # the very same object occurs twice in the flow
         before = [canon(b, root) for b in bvals]
         items, names = [], []
         ia = ib = 0
@@ -581,18 +777,21 @@ class Scenario(object):
                 items.append(avals[ia]); names.append(self.anames[ia]); ia += 1
             else:
                 items.append(bvals[ib]); names.append(self.bnames[ib]); ib += 1
-        ev, err = observe(spec.make(root), items, self.pattern, names, root)
+        ev, err = observe(spec.make(root), items, self.pattern, names, root, cut=self.cut, kind=self.kind)
         if err is not None:
             cur = [e["w"] for e in ev if e["ev"] == "in"]
             self.problems.append(("raised", cur[-1] if cur else "?", repr(err)))
         used = set()
         trace = [{"ev": "begin", "pat": [bool(x) for x in self.pattern], "fan": fan, "own": own,
-                  "async": bool(spec.is_async), "w": spec.name}]
+                  "async": bool(spec.is_async), "bobj": list(self.bobj), "cut": self.cut, "kind": self.kind,
+                  "w": spec.name}]
         cur = "?"
         for e in ev:
             if e["ev"] == "in":
                 cur = e["w"]
                 trace.append(e)
+            elif e["ev"] == "rerun":
+                trace.append(dict(e, w=spec.name))
             elif e["ev"] == "fs":
                 trace.append(dict(e, w=cur))
             elif e["ev"] == "out":
@@ -618,7 +817,7 @@ class Scenario(object):
                 snap = snapshot(root)
                 mutated = [self.bnames[i] for i, b in enumerate(bvals) if canon(b, root) != before[i]]
                 trace.append({"ev": "end", "fsok": snap == self.ref_snapshot and err is None, "mutated": mutated,
-                              "w": spec.name})
+                              "raised": "" if err is None else type(err).__name__, "w": spec.name})
                 if snap != self.ref_snapshot:
                     self.fsdiff = sorted(set(snap.items()) ^ set(self.ref_snapshot.items()))[:6]
         self.fan, self.own = fan, own
